@@ -174,7 +174,7 @@ def off_grid(rnd, spec):
 
 def run(ctx):
     fl = import_library()
-    nengines = ctx.scale(150, 3000)
+    nengines = ctx.scale(150, 12000)
     decs = list(range(1, 10))
     ctx.rule = (
         f"every FllExporter.to_string(engine) and FllImporter.from_string call observed. Workload: {nengines} generated engines over every registered term "
